@@ -142,6 +142,55 @@ def validate_api_trace(theory, sig, stages, module_path, trace_path, name, maxel
     return vlib.validate_trace(mod, trace_path, name=name + "-tlc", specdir=d, timeout=timeout)
 
 
+def plan_constant(sig, module_path):
+    """the flat rules of the generated module (comment above every rule function, which C16 checks
+    against the index fields the function body reads) as the Plan constant of EqlogEval"""
+    import extract
+    rules = []
+    funcs = {r for r in sig.order if sig.rels[r]["func"]}
+    for f in extract.rule_functions(open(module_path).read()):
+        prem = []
+        for a in f["prem"]:
+            rel, args = a["rel"], list(a["args"])
+            m = re.match(r"^(.*)\[diag=([0-9,]*)\]$", rel)
+            if m:
+                # a diagonal atom lists one variable per class of equal columns: expand to all columns
+                rel = m.group(1)
+                labels = [int(x) for x in m.group(2).split(",")]
+                first = []
+                for l in labels:
+                    if l not in first:
+                        first.append(l)
+                if len(first) != len(args):
+                    raise vlib.ToolError(f"diagonal atom {a} of {f['fn']}: {len(args)} variables for pattern {labels}")
+                args = [args[first.index(l)] for l in labels]
+            if rel in sig.rels:
+                kind = "rel"
+            elif rel.endswith("Set") and rel[:-3] in sig.types:
+                kind, rel = "set", rel[:-3]
+            else:
+                raise vlib.ToolError(f"cannot classify premise atom {a} of {f['fn']}")
+            if kind == "rel" and len(args) != len(sig.rels[rel]["cols"]):
+                raise vlib.ToolError(f"arity of premise atom {a} of {f['fn']}")
+            prem.append(f'[kind |-> {s(kind)}, rel |-> {s(rel)}, args |-> {seq(s(v) for v in args)}, age |-> {s(a["age"])}]')
+        concl = []
+        for c in f["concl"]:
+            m = re.match(r"^(.*?)\((.*)\)$", c)
+            rel, args = m.group(1), [x for x in m.group(2).split(",") if x]
+            me = re.match(r"^(\w+)==(\w+)$", rel)
+            if me and me.group(1) == me.group(2) and me.group(1) in sig.types:
+                kind, rel = "eq", me.group(1)
+            elif rel in sig.rels:
+                kind = "tuple"
+            elif rel.endswith("Def") and rel[:-3] in funcs:
+                kind, rel = "def", rel[:-3]
+            else:
+                raise vlib.ToolError(f"cannot classify conclusion atom {c} of {f['fn']}")
+            concl.append(f'[kind |-> {s(kind)}, rel |-> {s(rel)}, args |-> {seq(s(v) for v in args)}]')
+        rules.append(f"[prem |-> {seq(prem)}, concl |-> {seq(concl)}]")
+    return seq(rules), len(rules)
+
+
 EVAL_CFG = """SPECIFICATION {spec}
 CONSTANTS
   Types <- MTypes
@@ -157,6 +206,10 @@ CONSTANTS
   Members <- MMembers
   DomRel <- MDomRel
   CodRel <- MCodRel
+  UsePlan = {useplan}
+  Plan <- MPlan
+  RecordHist = {record}
+{view}
 INVARIANTS {invariants}
 {properties}
 CONSTRAINT Bound
@@ -164,7 +217,7 @@ CHECK_DEADLOCK FALSE"""
 
 
 def eval_model_check(theory, sig, stages, module_path, name, maxels=2, maxid=3, maxasserts=2, keep=True, chasemax=8,
-                     liveness=False, workers=8, timeout=3000, allow_violation=False, invariants=None):
+                     liveness=False, workers=8, timeout=3000, allow_violation=False, invariants=None, plan=False, cex=False):
     """TLC on EqlogEval instantiated with one corpus theory (design-level refinement check)."""
     d = vlib.workdir(name)
     mod = "MCEval_" + theory
@@ -176,9 +229,14 @@ def eval_model_check(theory, sig, stages, module_path, name, maxels=2, maxid=3, 
     cons["MMembers"] = sset(s(r) for r in (sig.models[model] if model else []))
     cons["MDomRel"] = s(eql.snake(model) + "_mor_dom") if model else s("")
     cons["MCodRel"] = s(eql.snake(model) + "_mor_cod") if model else s("")
+    cons["MPlan"], nplan = plan_constant(sig, module_path) if plan else ("<<>>", 0)
     props = "PROPERTY NoAllocation" + (" Terminates" if liveness else "")
     cfg = EVAL_CFG.format(spec="FairSpec" if liveness else "Spec", chasemax=chasemax, maxels=maxels, maxid=maxid,
-                          maxasserts=maxasserts, keep="TRUE" if keep else "FALSE",
-                          invariants=invariants or "RefinesApi SoundAtObs RootsOnly TypeSetsExact Disjoint", properties=props)
+                          maxasserts=maxasserts, keep="TRUE" if keep else "FALSE", useplan="TRUE" if plan else "FALSE",
+                          record="TRUE" if cex else "FALSE", view="VIEW NoHist" if cex and not liveness else "",
+                          invariants=invariants or ("RefinesApiCex SoundAtObsCex RootsOnly TypeSetsExact Disjoint" if cex
+                                                    else "RefinesApi SoundAtObs RootsOnly TypeSetsExact Disjoint"), properties=props)
     write_mc(d, mod, "EqlogEval", cons, cfg.splitlines())
-    return vlib.tlc(mod, name=name + "-tlc", workers=workers, specdir=d, timeout=timeout, allow_violation=allow_violation)
+    r = vlib.tlc(mod, name=name + "-tlc", workers=workers, specdir=d, timeout=timeout, allow_violation=allow_violation)
+    r["plan_rules"] = nplan
+    return r
